@@ -33,6 +33,8 @@ func init() {
 			{Name: "surveyor-sched-newsurvey-vs-response", Mode: "sched", Bound: b, Reset: kit.ResetGlobals, Body: schedNewSurvey},
 			{Name: fmt.Sprintf("surveyor-unlimited-survey-time-hist-D%d", d-1), Mode: "hist", Reset: kit.ResetGlobals, Body: func() { survTime = 0; defer func() { survTime = time.Second }(); hist(d - 1) },
 				NeedCounters: []string{"canceled-by-new-survey", "stale-discarded"}},
+			{Name: fmt.Sprintf("surveyor-context-opened-later-hist-D%d", d-1), Mode: "hist", Reset: kit.ResetGlobals, Body: func() { histOpt(d-1, true) },
+				NeedCounters: []string{"context-opened-during-a-survey", "expired-protostate"}},
 			{Name: "surveyor-slow-respondent-survey-sequence", Mode: "enum", Reset: kit.ResetGlobals, Body: slowRespondent, NeedCounters: []string{"queued-surveys-intact"}},
 			{Name: "surveyor-shared-message-two-contexts", Mode: "sched", Bound: b, Reset: kit.ResetGlobals, Body: schedSharedMessage},
 			{Name: "xsurveyor-slow-respondent-and-the-two-queue-lengths", Mode: "enum", Reset: kit.ResetGlobals, Body: func() { c08.QueueLengths("xsurveyor", xsurveyor.NewSocket, []byte{0x80, 0, 0, 1}, 4) }, NeedCounters: []string{"slow-peer-given-all-queued"}},
@@ -85,6 +87,7 @@ func (m *mctx) recvCall() ([]byte, error) {
 }
 
 type world struct {
+	lateCtx bool // histories may open a third context
 	sock  mangos.Socket
 	pipes []*vt.Pipe
 	seen  []int
@@ -174,6 +177,27 @@ func (w *world) events() []kit.Event {
 				m.recv = kit.Start("Recv:"+m.name, func() (interface{}, error) { b, err := m.recvCall(); return string(b), err })
 			}})
 		}
+	}
+	if len(w.ctxs) == 2 && w.lateCtx {
+		// a further context is opened - possibly while the socket or the other context has a survey
+		// outstanding: it starts with no survey of its own (Recv fails at once, its surveys and its
+		// Close leave the others' alone) and with the socket's current survey time
+		evs = append(evs, kit.Event{Name: "open-context", Run: func() {
+			c, err := w.sock.OpenContext()
+			if err != nil {
+				kit.Failf("setup", "OpenContext: %v", err)
+			}
+			w.ctxs = append(w.ctxs, &mctx{name: "ctx2", c: c, s: w.sock, stime: w.ctxs[0].stime})
+			for _, o := range w.ctxs[:2] {
+				if o.active {
+					kit.Count("context-opened-during-a-survey")
+				}
+			}
+		}})
+	}
+	if len(w.ctxs) > 2 && w.ctxs[2].cur != 0 {
+		c2 := w.ctxs[2]
+		evs = append(evs, kit.Event{Name: "respond:p1:cur-ctx2", Run: func() { w.respond(1, c2.cur, "cur-ctx2") }})
 	}
 	a, b := w.ctxs[0], w.ctxs[1]
 	if a.cur != 0 {
@@ -361,8 +385,11 @@ func (w *world) settle() {
 	}
 }
 
-func hist(depth int) {
+func hist(depth int) { histOpt(depth, false) }
+
+func histOpt(depth int, late bool) {
 	w := setup()
+	w.lateCtx = late
 	kit.Hist(depth, w.events, w.settle)
 	kit.Must("Socket.Close", func() { _ = w.sock.Close() })
 	kit.Quiesce()
